@@ -114,7 +114,14 @@ Inductive case :=
 | CQuery (o : orct) (has_kpfn : bool) (code : Z) (qkey : string) (nops : Z) (height : Z)
          (value : option string) (kp_ok : bool) (vtab atab : list (string * bool))
          (state_val : option (option string))
+         (* when the key path could be built and every proof operator is a ValueOp: the operators
+            (key, inner Merkle proof) and the printed key path handed to VerifyValue *)
+         (vops : option (list (string * pft) * string))
          (relayed_i : bool) (calls_i : list callt) (honest : bool)
+(* server side, real state transition: the DeliverTx results of block h as stored by
+   BlockExecutor.ApplyBlock, State.LastResultsHash after it, LastResultsHash of header h+1 as
+   State.MakeBlock fills it in *)
+| CChainResults (h : Z) (rs : list dtxt) (state_lrh : string) (next_lrh : string)
 (* a key path (name, hex-encoded?) printed and parsed back by the implementation:
    KeyPath.String(), KeyPathToKeys of that (None: error) *)
 | CKeyPath (keys : list (string * bool)) (str_i : string) (dec_i : option (list string))
@@ -314,7 +321,11 @@ Definition check (c : case) : verdict :=
       viol (imp honest relayed_i) 9;
       mism (Bool.eqb relayed_m relayed_i) 39;
       mism (calls_eqb calls_m calls_i) 40 ]
-  | CQuery o has_kpfn code qkey nops height value kp_ok vtab atab state_val relayed_i calls_i honest =>
+  | CChainResults h rs state_lrh next_lrh =>
+    let want := root Hs (map (fun x => dtx_enc (mk_dtx x)) rs) in
+    (* the hash the next header commits to is the hash of THIS block's DeliverTx results *)
+    viol (bytes_eqb want (unhex state_lrh) && bytes_eqb want (unhex next_lrh)) 16
+  | CQuery o has_kpfn code qkey nops height value kp_ok vtab atab state_val vops relayed_i calls_i honest =>
     let orc := mk_oracle o in
     let r := {| q_code := code; q_key := unhex qkey; q_nops := nops; q_ops := []; q_height := height;
                 q_value := option_map unhex value |} in
@@ -344,7 +355,33 @@ Definition check (c : case) : verdict :=
                            | _, _ => false
                            end
               end) 14;
+      (* relayed on the strength of ValueOps => a root hash can be computed from every one of them *)
+      viol (imp relayed_i
+              match value, vops with
+              | Some _, Some (ops, _) =>
+                forallb (fun x : string * pft =>
+                           let p := mk_proof (snd x) in
+                           match from_aunts Hs (pf_index p) (pf_total p) (pf_leaf_hash p) (rev (pf_aunts p)) with
+                           | Some _ => true | None => false end) ops
+              | _, _ => true
+              end) 15;
       viol (imp honest relayed_i) 9;
+      (* the model of VerifyValue over ValueOps against what the runtime answered per root *)
+      mism (match value, vops with
+            | Some v, Some (ops, kps) =>
+              let final := match key_path_to_keys (unhex kps) with
+                           | None => None
+                           | Some keys =>
+                             match vops_run Hs (map (fun x : string * pft => {| vo_key := unhex (fst x); vo_proof := mk_proof (snd x) |}) ops)
+                                            (rev keys) (unhex v) with
+                             | Some ([], a) => Some a
+                             | _ => None
+                             end
+                           end in
+              forallb (fun e : string * bool =>
+                         Bool.eqb (snd e) match final with Some a => bytes_eqb (unhex (fst e)) a | None => false end) vtab
+            | _, _ => true
+            end) 43;
       mism (Bool.eqb relayed_m relayed_i) 31;
       mism (calls_eqb calls_m calls_i) 32 ]
   | CParams o valid height max_bytes max_gas relayed_i calls_i honest =>
